@@ -25,8 +25,10 @@ def hist_str(b):
             x += ":" + s["mv"] + ("(" + s["f"] + ")" if s["f"] != "-" else "")
         if "off" in s:
             x += "@%d^%02x" % (s["off"], s.get("mask", 0))
-        if "cut" in s:
-            x += "-%d" % s["cut"]
+        if s.get("cutzero"):
+            x += "-zerotail"
+        elif "cut" in s:
+            x += "-%s" % s["cut"]
         out.append(x)
     return " ".join(out)
 
@@ -72,7 +74,7 @@ def expand_bytes(behs, lens_of, rng, per_field, all_bytes, masks):
             cuts = list(range(1, n)) if all_bytes else sorted(set([1, 2, 15, 16, 17, 31, 32, 33, n // 2, n - 5, n - 4, n - 3, n - 1] + [rng.randrange(1, n) for _ in range(per_field)]))
             for c in cuts:
                 if 0 < c < n:
-                    nb = copy.deepcopy(b); nb["hist"] = nb["hist"][:k + 1]
+                    nb = copy.deepcopy(b); nb["xk"] = k
                     nb["hist"][k].update(mv="trunc", cut=c)
                     nb["expand"] = True
                     out.append(nb)
@@ -81,17 +83,21 @@ def expand_bytes(behs, lens_of, rng, per_field, all_bytes, masks):
             if s["hop"] in ("CA", "CL", "HR"):
                 for c in (range(1, 49) if all_bytes else [1, 2, 8, 15, 16, 17, 32]):
                     if c < n:
-                        nb = copy.deepcopy(b); nb["hist"] = nb["hist"][:k + 1]
+                        nb = copy.deepcopy(b); nb["xk"] = k + 1
                         nb["hist"][k].update(mv="readdr")
-                        nb["hist"].append(dict(s=s["s"], hop=s["hop"], mv="replay", f="-", cut=c, alt=True))
+                        nb["hist"].insert(k + 1, dict(s=s["s"], hop=s["hop"], mv="replay", f="-", cut=c, alt=True))
                         nb["expand"] = True
                         out.append(nb)
+            # a datagram whose last byte(s) are zero, cut by exactly those bytes
+            nb = copy.deepcopy(b); nb["xk"] = k
+            nb["hist"][k].update(mv="trunc", cut=0, cutzero=True); nb["expand"] = True
+            out.append(nb)
             offs = range(n) if all_bytes else sorted(set([0, 1, 2, 3, 4, n - 1, n - 16, n - 17, n - 32, n - 33] + [rng.randrange(0, n) for _ in range(per_field * 3)]))
             for off in offs:
                 if not (0 <= off < n):
                     continue
                 for mask in (masks if all_bytes else [masks[rng.randrange(len(masks))]]):
-                    nb = copy.deepcopy(b); nb["hist"] = nb["hist"][:k + 1]
+                    nb = copy.deepcopy(b); nb["xk"] = k
                     nb["hist"][k].update(mv="tamper", f="?", off=off, mask=mask)
                     nb["expand"] = True
                     out.append(nb)
@@ -202,32 +208,36 @@ def judge(v, pid, behs, results, sample_every=997):
     return nun
 
 def judge_expanded(v, pid, behs, results):
-    """Byte-level expansions: the history ends with one concrete tamper/truncate; the receiver must not complete."""
+    """Byte-level expansions: one step of an honest run is replaced by a concrete tamper/truncate, the rest of the
+    handshake runs honestly; the party that received the changed datagram must not complete."""
     nun = 0
     for b, r in zip(behs, results):
-        last = b["hist"][-1]
+        xk = b["xk"]
+        last = dict(b["hist"][xk])
         i, h = last["s"] - 1, last["hop"]
-        what = ("byte %d ^ 0x%02x" % (last["off"], last["mask"])) if last["mv"] == "tamper" else ("truncated by %d%s" % (last["cut"], " after the server saw the full datagram from another address" if last["mv"] == "replay" else ""))
-        v.case(("x", scen_str(b), hist_str(b)), nontrivial=True)
+        if last.get("cutzero"):
+            last["cut"] = "its trailing zero byte(s)"
+        what = ("byte %d ^ 0x%02x" % (last["off"], last["mask"])) if last["mv"] == "tamper" else ("truncated by %s%s" % (last["cut"], " after the server saw the full datagram from another address" if last["mv"] == "replay" else ""))
+        shown = dict(hist=b["hist"][:xk + 1])
+        v.case(("x", scen_str(b), hist_str(shown)), nontrivial=True)
         if "err" in r:
+            if "no pending message" in r["err"] or "no datagram ending" in r["err"]:
+                continue      # the handshake stopped at the changed datagram (nothing further to deliver)
             nun += 1
             if nun <= 5:
-                lib.log("UNEXPLAINED expansion %s | %s | %s" % (scen_str(b), hist_str(b), r["err"]))
+                lib.log("UNEXPLAINED expansion %s | %s | %s" % (scen_str(b), hist_str(shown), r["err"]))
             continue
         s = b["dial"][i]
         bad = None
+        steps = r.get("steps") or []
+        acc_from = sum(o["acc"] for o in steps[xk:])
         if h in ("SH", "SA", "HP") and r["done"][i]:
             bad = ("V2", "client completed after consuming %s with %s" % (h, what))
-        lastobs = (r.get("steps") or [dict(acc=0)])[-1]
-        if h in ("CL", "HR") and lastobs["acc"] > 0:
-            bad = ("V4", "server completed the handshake on %s with %s" % (h, what))
+        if h in ("CA", "CL", "HR") and acc_from > 0:
+            bad = ("V4", "server completed the handshake after consuming %s with %s" % (h, what))
         if bad and pid == "C02":
-            v.violation("%s %s | %s | %s" % (bad[0], scen_str(b), hist_str(b), bad[1]),
+            v.violation("%s %s | %s | %s" % (bad[0], scen_str(b), hist_str(shown), bad[1]),
                         "byte-level expansion replayed on real endpoints", dict(behaviour=dict(mode=b["mode"], dial=b["dial"], ccfg=b["ccfg"], hist=b["hist"]), real=r))
-        elif not bad and h in ("CH", "CA") and (r["nsess"].get(s, 0) > 0 or (h == "CH" and r["sent"].get(s, 0) > 0 and last["mv"] == "trunc")):
-            nun += 1
-            if nun <= 5:
-                lib.log("UNEXPLAINED expansion %s | %s | server allocated state / answered" % (scen_str(b), hist_str(b)))
     v.count("byte_level_expansions_replayed", len(behs))
     v.cov["traces_validated_against_impl"] += len(behs)
     v.count("unexplained_differences", nun)
